@@ -204,8 +204,17 @@ UseEnded(h, p, k) ==
 PidFreeForSession(h, p, maxRank) ==
     LET n == NumOpened(h, p) IN n < maxRank /\ (IF n = 0 THEN TRUE ELSE UseEnded(h, p, n))
 
+\* The two pipes are independent: the sshd line of a NEW process that reuses a pid may overtake the end of the earlier
+\* session on the audit pipe.  It cannot overtake the earlier process's own sshd line (same pipe), and here it does
+\* not overtake the earlier session's LOGIN record either (two logins parked under one pid cannot be told apart by a
+\* pid-keyed correlator; that situation is outside the property).  So: the previous use is correlated (login and
+\* LOGIN record both seen, nothing stale) - ended or not.
+UseCorrelated(h, p, k) ==
+    /\ Len(h.lg[p]) >= k /\ ~h.lg[p][k].stale
+    /\ \E s \in SessionOf(h, p, k) : ~h.staleS[s]
+
 PidFreeForLogin(h, p, maxRank) ==
-    LET m == Len(h.lg[p]) IN m < maxRank /\ (IF m = 0 THEN TRUE ELSE UseEnded(h, p, m))
+    LET m == Len(h.lg[p]) IN m < maxRank /\ (IF m = 0 THEN TRUE ELSE UseCorrelated(h, p, m))
 
 (***************************************************************************)
 (* The properties, over (h, out).                                          *)
